@@ -5,6 +5,12 @@
     * variables: a name bound in the generator's scope (let / loop variables, under the `makevar`
       renaming) or a template parameter (`opt_data.x`),
     * accesses `.k`, `[n]` (n ≥ 0) and a null-safe LAST access `?.k` / `?[n]`,
+    * `$ij` references (`opt_ijData…`: the third parameter of the function; `IjRel`: it holds the JSON image of the
+      injected data; a function called WITHOUT injected data is outside the subset, `unspec`),
+    * compile-time GLOBALS with a scalar value (null / bool / int / string): the table `Globals.tbl` — an instance
+      parameter of the development — is what parsepasses.SetGlobals substitutes; the generator model looks a global
+      up when it meets the node (the substitution FUSED into the walk, `GlobalsAre o`: `Options.globals` is the table),
+      the translation does the same, and `GlobRel`: the Soy environment's globals hold the same values,
     * `isNonnull`, `length`, `min`, `max`, and `floor` / `ceiling` / `round` (one argument),
   under an ENVIRONMENT RELATION `EnvRel sc env jenv` between the Soy environment, the generator's
   scope and the JavaScript variables: every visible Soy variable `k` is held, as its JSON image,
@@ -26,6 +32,37 @@ open SoyVerif.Props.C04 (opOf opSym jsOp_sym)
 open SoyVerif.Lemmas.JsGenSpec (ScopeShape ScopeOk scopeOk_shape)
 
 /-! ## translation -/
+
+/-- the compile-time GLOBALS: the map `parsepasses.SetGlobals` substitutes into the global nodes of the tree before
+    generation.  The generator model looks a global up in `Options.globals` when it meets the node (the substitution
+    fused into the walk); the translation does the same in this table — an instance parameter of the whole development
+    (`GlobalsAre o`: it is the table of the generator's options). -/
+class Globals where
+  tbl : List (Bytes × Value)
+
+set_option linter.unusedSectionVars false
+
+variable [Globals]
+
+/-- a scalar global as the literal the generator writes for it (`walkValue`) -/
+def globalAst : Value → Option JsExpr
+  | .null => some .null
+  | .bool b => some (.bool b)
+  | .int i => some (.num i.toInt)
+  | .str s => some (.str s)
+  | _ => none
+
+/-- … and as the value Spec/Eval holds for it -/
+def globalVal : Value → Spec.Eval.Val
+  | .null => .null
+  | .bool b => .bool b
+  | .int i => .int i.toInt
+  | .str s => .str s
+  | _ => .undefined
+
+/-- the generator's options carry the table of the translation -/
+class GlobalsAre (o : Options) : Prop where
+  eq : o.globals = Globals.tbl
 
 def sIsNonnull : Bytes := b!"isNonnull"
 def sLength : Bytes := b!"length"
@@ -112,8 +149,15 @@ def toAst (sc : Scope) : Expr → Option JsExpr
   | .tern _ c a b => match toAst sc c, toAst sc a, toAst sc b with
     | some jc, some ja, some jb => some (.cond jc ja jb)
     | _, _, _ => none
+  | .global _ name =>
+    match assocGet? Globals.tbl name with
+    | some v => globalAst v
+    | none => none
   | .dataRef _ key acc =>
-    if key == sIj || key.contains 36 then none          -- `$ij` is not covered; a Soy name has no "$"
+    if key == sIj then
+      -- `$ij…`: the third parameter of the function
+      (accAst acc .ijData).map fun j => if anyNullSafe acc then .paren j else j
+    else if key == sIj || key.contains 36 then none          -- a Soy name has no "$"
     else
       let base : JsExpr := match sc.lookup key with
         | some g => .local g
@@ -145,6 +189,7 @@ def render : JsExpr → List Piece
     [.fixed b!"(("] ++ render a ++ [.fixed b!") != null ? "] ++ render a' ++ [.fixed b!" : "] ++ render b ++ [.fixed b!")"]
   | .local g => [.ident g]
   | .optData k => [.fixed b!"opt_data.", .ident k]
+  | .ijData => [.fixed b!"opt_ijData"]
   | .member x k => render x ++ [.fixed b!".", .ident k]
   | .index x i => render x ++ [.fixed b!"[", .int i, .fixed b!"]"]
   | .guard g r => [.fixed b!"("] ++ render g ++ [.fixed b!" == null) ? null : "] ++ render r
@@ -211,7 +256,7 @@ theorem RunsSc.bindScope {sc : Scope} {k : Scope → M Unit} {ps : List Piece} (
   simp only [Bind.bind, M.bind, getScope, hs, h', List.nil_append]
 
 section
-variable (sk : List Bytes → List Bytes) (o : Options)
+variable (sk : List Bytes → List Bytes) (o : Options) [GlobalsAre o]
 
 theorem visitAccess_renders (sc : Scope) : ∀ (acc : AccessList) (x j : JsExpr), accAst acc x = some j →
     RunsSc sc (visitAccess sk o acc (render x)) (render j)
@@ -491,6 +536,18 @@ theorem walkExpr_renders (sc : Scope) :
   | .dataRef _ key acc, j, h => by
     unfold toAst at h
     split at h
+    · rename_i hkij
+      simp only [Option.map_eq_some_iff] at h
+      obtain ⟨j0, hacc, rfl⟩ := h
+      unfold walkExpr
+      refine (RunsSc.seq RunsSc.atOther (RunsSc.bindScope ?_)).cast (List.nil_append _)
+      have hkey : (key == b!"ij") = true := by simpa [sIj] using hkij
+      simp only [hkey, if_true]
+      have hv := visitAccess_renders sk o sc acc .ijData j0 hacc
+      have := RunsSc.seq (RunsSc.whenFx (sc := sc) (anyNullSafe acc) b!"(") (RunsSc.seq hv (RunsSc.whenFx (anyNullSafe acc) b!")"))
+      refine this.cast ?_
+      cases anyNullSafe acc <;> simp [render]
+    split at h
     · cases h
     · rename_i hij
       simp only [Option.map_eq_some_iff] at h
@@ -585,7 +642,19 @@ theorem walkExpr_renders (sc : Scope) :
                     exact func_runs sk o sc p _ _ _ _ tbl_max ((parts2_runs sk o sc a b _ _ ra rb _ _ _).cast (by simp [render]))
                   · cases hf
   | .float _ _, j, h => by simp [toAst] at h
-  | .global _ _, j, h => by simp [toAst] at h
+  | .global _ name, j, h => by
+    unfold toAst at h
+    unfold walkExpr
+    rw [GlobalsAre.eq (o := o)]
+    cases hg : assocGet? Globals.tbl name with
+    | none => simp [hg] at h
+    | some v =>
+      simp only [hg] at h ⊢
+      cases v <;> simp only [globalAst, Option.some.injEq, reduceCtorEq] at h <;> subst h <;> unfold walkValue
+      · exact (RunsSc.seq RunsSc.atOther (RunsSc.fx _)).cast (by simp [render])
+      · exact (RunsSc.seq RunsSc.atOther (RunsSc.fx _)).cast (by simp [render])
+      · exact (RunsSc.seq RunsSc.atOther (RunsSc.emit _)).cast (by simp [render])
+      · exact (RunsSc.seq RunsSc.atOther (RunsSc.seq (RunsSc.fx _) (RunsSc.seq (RunsSc.emit _) (RunsSc.fx _)))).cast (by simp [render])
   | .list _ _, j, h => by simp [toAst] at h
   | .map _ _, j, h => by simp [toAst] at h
 
@@ -741,9 +810,19 @@ def LoopRel (sc : Scope) (env : Spec.Eval.Env) (jenv : JEnv) : Prop :=
   ∀ v f, Scope.loopFrame sc.stack v = some f →
     ∃ i last, Spec.Eval.findLoop env.loops v = some (i, last) ∧ FrameRel f v i last jenv
 
+/-- `opt_ijData` is the JSON image of the injected data (`undefined` when there is none) -/
+def IjRel (ij : Option Spec.Eval.Binds) (jij : Option (List (Bytes × JVal))) : Prop :=
+  match ij with
+  | some kvs => ∃ jk, toJsKvs kvs = some jk ∧ jij = some jk
+  | none => jij = none
+
+/-- the globals of the Soy environment are the scalar globals of the table -/
+def GlobRel (gs : Spec.Eval.Binds) : Prop :=
+  ∀ name v j, assocGet? Globals.tbl name = some v → globalAst v = some j → Spec.Eval.find gs name = some (globalVal v)
+
 /-- the environment relation: the variables (`VarRel`) and the loops (`LoopRel`) -/
 def EnvRel (ent : Spec.Eval.Binds) (sc : Scope) (env : Spec.Eval.Env) (jenv : JEnv) : Prop :=
-  VarRel sc env jenv ∧ LoopRel sc env jenv ∧ toJsKvs ent = some jenv.optData
+  VarRel sc env jenv ∧ LoopRel sc env jenv ∧ toJsKvs ent = some jenv.optData ∧ IjRel env.ij jenv.ijData ∧ GlobRel env.globals
 
 theorem localNum_of_find {jenv : JEnv} {x : Bytes} {n : Int} (h : jenv.locals.find? (·.1 == x) = some (x, .num n)) :
     localNum jenv x = some n := by simp [localNum, h]
@@ -1169,7 +1248,7 @@ theorem applyFn_isNonnull (args : List Val) : Spec.Eval.applyFn sIsNonnull args 
      | _ => .error) := rfl
 theorem applyFn_length (args : List Val) : Spec.Eval.applyFn sLength args =
     (match args with
-     | [.list xs] => .val (.int xs.length)
+     | [.list xs] => Spec.Eval.intRes xs.length
      | _ => .error) := rfl
 theorem applyFn_floor (args : List Val) : Spec.Eval.applyFn sFloor args =
     (match args with
@@ -1211,7 +1290,8 @@ theorem apply1_corr (name : Bytes) (f : Fn1) (hf : fn1Of name = some f) (v : Val
       obtain ⟨xs, rfl, hxs⟩ := toJsV_arr hv
       rw [applyFn_length]
       have hl := toJsList_length xs js hxs
-      exact ⟨.int xs.length, rfl, by rw [← hl]; exact toJsV_int he⟩
+      rw [hl] at he
+      exact ⟨.int xs.length, intRes_of_exact he, by rw [hl]; exact toJsV_int he⟩
     · have hint : ∀ (g : Fn1), (g = .floor ∨ g = .ceil ∨ g = .round) → apply1 g ja = .val jv →
           ∃ i, v = .int i ∧ exact i = true ∧ jv = .num i := by
         intro g hg hh
@@ -1551,6 +1631,29 @@ theorem gen_correct_refs_partial {ent : Spec.Eval.Binds} (sc : Scope) (env : Spe
   | .dataRef dpos key acc, j, jv, h, hj => by
     unfold toAst at h
     split at h
+    · rename_i hkij
+      simp only [Option.map_eq_some_iff] at h
+      obtain ⟨j0, hacc, rfl⟩ := h
+      have hj0 : eval jenv j0 = .val jv := by
+        cases hns : anyNullSafe acc <;> simp only [hns, Bool.false_eq_true, if_false, if_true] at hj
+        · exact hj
+        · unfold eval at hj; exact hj
+      have hk : (key == Spec.Eval.sIj) = true := by simpa [sIj, Spec.Eval.sIj] using hkij
+      obtain ⟨jx, hjx⟩ := accAst_base_val jenv acc .ijData j0 jv hacc hj0
+      have hir := hrel.2.2.2.1
+      unfold IjRel at hir
+      cases hij : env.ij with
+      | none =>
+        simp only [hij] at hir
+        simp [eval, hir] at hjx
+      | some kvs =>
+        simp only [hij] at hir
+        obtain ⟨jk, hjk, hje⟩ := hir
+        have hspec : Spec.Eval.eval env (.dataRef dpos key acc) = Spec.Eval.evalAcc env acc (.map kvs) := by
+          simp [Spec.Eval.eval, hk, hij]
+        rw [hspec]
+        exact accAst_corr env jenv acc .ijData j0 (.map kvs) (.obj jk) jv hacc (by simp [eval, hje]) (by simp [toJsV, hjk]) hj0
+    split at h
     · cases h
     · rename_i hij
       simp only [Option.map_eq_some_iff] at h
@@ -1626,7 +1729,24 @@ theorem gen_correct_refs_partial {ent : Spec.Eval.Binds} (sc : Scope) (env : Spe
                 obtain ⟨r, hr, hrj⟩ := apply2_corr name f2 hf v1 v2 va vb jv hvj1 hvj2 hj
                 exact ⟨r, by simp [Spec.Eval.eval, isLoopFn_fn2 hf, Spec.Eval.evalList, hv1, hv2, Spec.Eval.Out.bind, hr], hrj⟩
   | .float _ _, j, jv, h, _ => by simp [toAst] at h
-  | .global _ _, j, jv, h, _ => by simp [toAst] at h
+  | .global _ name, j, jv, h, hj => by
+    unfold toAst at h
+    cases hg : assocGet? Globals.tbl name with
+    | none => simp [hg] at h
+    | some v =>
+      simp only [hg] at h
+      have hf := hrel.2.2.2.2 name v j hg h
+      refine ⟨globalVal v, by simp [Spec.Eval.eval, hf], ?_⟩
+      cases v <;> simp only [globalAst, Option.some.injEq, reduceCtorEq] at h <;> subst h
+      · simp only [eval, JOut.val.injEq] at hj; subst hj; rfl
+      · simp only [eval, JOut.val.injEq] at hj; subst hj; rfl
+      · simp only [eval] at hj
+        split at hj
+        · rename_i hex
+          simp only [JOut.val.injEq] at hj; subst hj
+          simp [globalVal, toJsV, hex]
+        · cases hj
+      · simp only [eval, JOut.val.injEq] at hj; subst hj; rfl
   | .list _ _, j, jv, h, _ => by simp [toAst] at h
   | .map _ _, j, jv, h, _ => by simp [toAst] at h
 
@@ -1635,8 +1755,9 @@ theorem gen_correct_refs_partial {ent : Spec.Eval.Binds} (sc : Scope) (env : Spe
 /-- template parameters: before any `let` / loop, with `opt_data` the JSON image of the data the
     template was entered with -/
 theorem envRel_params (sc : Scope) (env : Spec.Eval.Env) (jenv : JEnv)
-    (hsc : ∀ k, sc.lookup k = none) (hdata : toJsKvs env.vars = some jenv.optData) : EnvRel env.vars sc env jenv := by
-  refine ⟨?_, ?_, hdata⟩
+    (hsc : ∀ k, sc.lookup k = none) (hdata : toJsKvs env.vars = some jenv.optData) (hij : IjRel env.ij jenv.ijData)
+    (hgl : GlobRel env.globals) : EnvRel env.vars sc env jenv := by
+  refine ⟨?_, ?_, hdata, hij, hgl⟩
   · intro k _ _
     rw [hsc k]
     exact toJsKvs_find env.vars jenv.optData k hdata
@@ -1890,13 +2011,13 @@ theorem fresh_at (b : Bytes) (s : St) (hs : J b s) (x use : Bytes) (n : Nat) (hx
 
 /-! ## what remains unproved (C04, expression and command level)
 
-  * `$ij` references, accesses by a computed key `$x[$e]`, a null-safe access that is not the last
+  * accesses by a computed key `$x[$e]`, a null-safe access that is not the last
     one (`$x?.a.b`: the specification leaves what follows a null-safe hit open), negative indices;
   * floats (the JavaScript value universe here has exact integers only): `round(x, n)`, `floor` /
     `ceiling` / `round` / `min` / `max` of floats, float arithmetic and printing;
   * the other functions (`keys`, `augmentMap`, `strContains`, `range`, `randomInt`, the bidi
     functions),
-    list and map literals, globals;
+    list and map literals, globals whose value is a float, a list or a map;
   * `range`-loops in `envRel_*` (only `{let}` and `{foreach}` are instantiated; `{for … in range}` is
     the same `envRel_bind` with `pushForRange`), let-CONTENT variables (their value is the text the
     block rendered: command level);
